@@ -272,7 +272,16 @@ func (d *drv[K, V]) Seq(op string, a, b []byte, n uint) SeqFn {
 	case "botk":
 		s = d.t.BottomK(n)
 	case "range":
-		s = d.t.Range(d.mk(a), d.mk(b))
+		ka := d.mk(a)
+		// the scanner idiom has one buffer: the second bound needs its own
+		if d.buf != nil && d.buf.layout == layScan {
+			d.buf.layout = laySpare
+			kb := d.mk(b)
+			d.buf.layout = layScan
+			s = d.t.Range(ka, kb)
+		} else {
+			s = d.t.Range(ka, d.mk(b))
+		}
 	case "prefix":
 		s = d.t.Prefix(d.mk(a))
 	default:
